@@ -32,7 +32,7 @@ let split_str (s : string) (sep : string) : string list =
 
 let trim = Stdlib.String.trim
 
-type entry = { host : int; target : string; code : int; location : string option; body : string }
+type entry = { host : int; target : string; code : int; location : string option; body : string; chunked : bool }
 
 (* what the mock origin logs for one request, and the bytes it replies with *)
 let mock (table : entry list) (k : int) (wire : string) : string * string =
@@ -60,9 +60,17 @@ let mock (table : entry list) (k : int) (wire : string) : string * string =
       (match !cl with Some c -> string_of_int c | None -> "-") !n (hexs body) in
   let e = match Stdlib.List.find_opt (fun e -> e.host = k && e.target = target) table with
     | Some e -> e
-    | None -> { host = k; target = ""; code = 404; location = None; body = "nf" } in
-  let reply = Printf.sprintf "HTTP/1.1 %d %s\r\nContent-Length: %d\r\n%s\r\n%s" e.code (phrase e.code) (Stdlib.String.length e.body)
-      (match e.location with Some l -> "Location: " ^ l ^ "\r\n" | None -> "") e.body in
+    | None -> { host = k; target = ""; code = 404; location = None; body = "nf"; chunked = false } in
+  let loc = match e.location with Some l -> "Location: " ^ l ^ "\r\n" | None -> "" in
+  let reply =
+    if e.chunked then begin
+      let n = Stdlib.String.length e.body in
+      let cut = n / 2 in
+      let part s = if s = "" then "" else Printf.sprintf "%x\r\n%s\r\n" (Stdlib.String.length s) s in
+      Printf.sprintf "HTTP/1.1 %d %s\r\nTransfer-Encoding: chunked\r\n%s\r\n%s%s0\r\n\r\n" e.code (phrase e.code) loc
+        (part (Stdlib.String.sub e.body 0 cut)) (part (Stdlib.String.sub e.body cut (n - cut)))
+    end else
+      Printf.sprintf "HTTP/1.1 %d %s\r\nContent-Length: %d\r\n%s\r\n%s" e.code (phrase e.code) (Stdlib.String.length e.body) loc e.body in
   (log, reply)
 
 let () =
@@ -70,9 +78,10 @@ let () =
     | [meth; url; body; follow; cookies; table] ->
       let table = if table = "-" then [] else Stdlib.List.map (fun e ->
           match Stdlib.String.split_on_char ':' e with
-          | [h; t; c; l; b] ->
+          | h :: t :: c :: l :: b :: rest ->
             { host = int_of_string h; target = str_of_bytes (bytes_of_hex t); code = int_of_string c;
-              location = (if l = "-" then None else Some (str_of_bytes (bytes_of_hex l))); body = str_of_bytes (bytes_of_hex b) }
+              location = (if l = "-" then None else Some (str_of_bytes (bytes_of_hex l))); body = str_of_bytes (bytes_of_hex b);
+              chunked = (rest = ["c"]) }
           | _ -> failwith "entry") (Stdlib.String.split_on_char ',' table) in
       let resolves _https h = host_index (str_of_bytes h) <> None in
       let net h req =
